@@ -177,6 +177,133 @@ def init_facts(fn):
     return flt, ident
 
 
+def probe_dispatch(plumpy):
+    """(rpcDispatch, broadcastDispatch, exception class raised for an unknown intent, status keys), PROBED on a real process:
+    `_schedule_rpc` of the instance is replaced by a recorder, then `message_receive` / `broadcast_receive` are called with
+    every Intent constant and an unknown one.  How the dispatch is written (if-chain, dictionary, shared helper) does not
+    matter.  Returns None when the probe is inconclusive (then the AST is used)."""
+    import asyncio
+    pc = plumpy.process_comms
+
+    class Probe(plumpy.Process):
+        def run(self):
+            return None
+    loop = asyncio.new_event_loop()
+    try:
+        p = Probe(loop=loop)
+        called = []
+
+        def recorder(callback, *a, **k):
+            called.append(getattr(callback, '__name__', repr(callback)))
+            import kiwipy
+            return kiwipy.Future()      # what the real `_schedule_rpc` returns (a caller may test it against None)
+        p._schedule_rpc = recorder
+        intents = [(k, v) for k, v in vars(pc.Intent).items() if not k.startswith('_') and isinstance(v, str)]
+        order = {'PLAY': 0, 'PAUSE': 1, 'KILL': 2, 'STATUS': 3}
+        intents.sort(key=lambda kv: order.get(kv[0], 9))
+        rpc, bc = [], []
+        for name, value in intents:
+            del called[:]
+            try:
+                r = p.message_receive(None, {pc.INTENT_KEY: value, pc.MESSAGE_TEXT_KEY: None})
+            except Exception:  # noqa
+                continue
+            if called:
+                rpc.append((name, called[0]))
+            elif isinstance(r, dict):
+                rpc.append((name, 'get_status_info'))
+        for name, value in intents:
+            del called[:]
+            try:
+                p.broadcast_receive(None, {pc.MESSAGE_TEXT_KEY: None}, None, value, None)
+            except Exception:  # noqa
+                continue
+            if called:
+                bc.append((name, called[0]))
+        try:
+            p.message_receive(None, {pc.INTENT_KEY: 'no-such-intent', pc.MESSAGE_TEXT_KEY: None})
+            unknown = ''
+        except Exception as e:  # noqa
+            unknown = type(e).__name__
+        info = {}
+        p.get_status_info(info)
+        return rpc, bc, unknown, sorted(info)
+    except Exception:  # noqa
+        return None
+    finally:
+        loop.close()
+
+
+def failure_candidates():
+    """name -> exception class, the broadcast failures tried by `probe_tolerated`: the three kinds the property names first (in
+    the order of the source), then every proper base class of theirs up to Exception, then unrelated classes."""
+    import asyncio
+    import kiwipy
+    import aio_pika.exceptions as ae
+    out = {'ConnectionClosed': ae.ConnectionClosed, 'ChannelInvalidStateError': ae.ChannelInvalidStateError,
+           'TimeoutError': kiwipy.TimeoutError}
+    named = set(out.values())
+    for cls in list(out.values()):
+        for base in cls.__mro__[1:]:
+            if base in (BaseException, object) or base in named:
+                continue
+            named.add(base)
+            out[f'{base.__module__}.{base.__name__}'] = base
+    for cls in (RuntimeError, ValueError, KeyError, OSError, ConnectionError, asyncio.TimeoutError, asyncio.InvalidStateError,
+                getattr(kiwipy, 'UnroutableError', RuntimeError), getattr(kiwipy, 'CommunicatorClosed', RuntimeError),
+                getattr(ae, 'AMQPError', RuntimeError), getattr(ae, 'ChannelClosed', RuntimeError)):
+        if cls not in named:
+            named.add(cls)
+            out[f'{cls.__module__}.{cls.__name__}'] = cls
+    return out
+
+
+def probe_tolerated(plumpy):
+    """Names of the candidate failures of the state-change broadcast the process survives, PROBED: a trivial process whose
+    communicator raises the candidate at the created -> running announcement must still finish.  None when inconclusive."""
+    import asyncio
+    import kiwipy
+
+    class Probe(plumpy.Process):
+        def run(self):
+            return None
+
+    class Failing(kiwipy.LocalCommunicator):
+        def __init__(self, exc):
+            super().__init__()
+            self.exc, self.n = exc, 0
+
+        def broadcast_send(self, body, sender=None, subject=None, correlation_id=None):
+            self.n += 1
+            if self.n == 2:
+                raise self.exc
+            return True
+
+    tolerated = []
+    try:
+        for name, cls in failure_candidates().items():
+            try:
+                exc = cls('injected')
+            except Exception:  # noqa
+                exc = cls()
+            loop = asyncio.new_event_loop()
+            try:
+                comm = Failing(exc)
+                p = Probe(loop=loop, communicator=comm, pid='probe')
+                try:
+                    p.execute()
+                    ok = p.state == plumpy.ProcessState.FINISHED and comm.n == 3
+                except BaseException:  # noqa
+                    ok = False
+            finally:
+                loop.close()
+            if ok:
+                tolerated.append(name)
+        return tolerated
+    except Exception:  # noqa
+        return None
+
+
 def gen_comms(plumpy, repo, header):
     src = open(os.path.join(repo, 'src', 'plumpy', 'processes.py')).read()
     tree = ast.parse(src)
@@ -191,11 +318,18 @@ def gen_comms(plumpy, repo, header):
     def table(name, rows):
         out.append(f'def {name} : List (String × String) := ' + lean_list(f'({lean_str(a)}, {lean_str(b)})' for a, b in rows))
 
-    table('rpcDispatch', dispatch_table(fns['message_receive']) if 'message_receive' in fns else [])
-    table('broadcastDispatch', dispatch_table(fns['broadcast_receive']) if 'broadcast_receive' in fns else [])
-    out.append(f'def rpcUnknownIntentRaises : String := {lean_str(final_raise(fns["message_receive"]) if "message_receive" in fns else "")}')
-    out.append('def statusInfoKeys : List String := ' + lean_list(
-        lean_str(k) for k in (status_keys(fns['get_status_info']) if 'get_status_info' in fns else [])))
+    probed = probe_dispatch(plumpy)
+    if probed is not None:
+        rpc, bc, unknown, skeys = probed
+    else:
+        rpc = dispatch_table(fns['message_receive']) if 'message_receive' in fns else []
+        bc = dispatch_table(fns['broadcast_receive']) if 'broadcast_receive' in fns else []
+        unknown = final_raise(fns['message_receive']) if 'message_receive' in fns else ''
+        skeys = status_keys(fns['get_status_info']) if 'get_status_info' in fns else []
+    table('rpcDispatch', rpc)
+    table('broadcastDispatch', bc)
+    out.append(f'def rpcUnknownIntentRaises : String := {lean_str(unknown)}')
+    out.append('def statusInfoKeys : List String := ' + lean_list(lean_str(k) for k in skeys))
     parts = probe_subject(plumpy) or (subject_parts(fns['on_entered']) if 'on_entered' in fns else [])
     out.append('def stateChangedSubject : List String := ' + lean_list(lean_str(p) for p in parts))
     flt, ident = init_facts(fns['init']) if 'init' in fns else ('', '')
